@@ -209,6 +209,40 @@ def run_operator(spec, res):
         if np.abs(line - want[:, pt[ax]]).max() > 1e-13 * np.abs(want).max():
             common.add_violation(res, f"point impulse {b} order={p}", {"N": N, "axis": ax})
             continue
+        # ---- node set: a non-finite sample (excised point, puncture) spoils
+        # exactly the outputs whose stencil contains it, no others
+        if N <= 40:
+            for j in sorted({0, N // 2, N - 1, int(rng.integers(0, N))}):
+                f = rng.normal(size=shape)
+                idx = [slice(None)] * 3
+                idx[ax] = j
+                f[tuple(idx)] = np.nan
+                with common.Quiet(), np.errstate(all='ignore'):
+                    out = np.array(op(f))
+                bad = np.isnan(np.moveaxis(out, ax, 0).reshape(N, -1))
+                res['observations'] += 1
+                nz = want[:, j] != 0
+                if b == 'symmetric' or (b == 'periodic' and N < p + 1):
+                    # a sample can enter one stencil twice (mirrored / wrapped
+                    # ghost nodes) with weights that cancel: only bounds
+                    near = np.abs(np.arange(N) - j) <= p // 2
+                    if b == 'periodic':
+                        near[:] = True
+                    ok_set = (np.all(bad.any(axis=1)[nz]) and not np.any(bad.any(axis=1)[~near])
+                              and np.array_equal(bad.any(axis=1), bad.all(axis=1)))
+                else:
+                    ok_set = (np.array_equal(bad.any(axis=1), nz)
+                              and np.array_equal(bad.all(axis=1), nz))
+                if not ok_set:
+                    i = int(np.argmax(bad.any(axis=1) != (want[:, j] != 0)))
+                    common.add_violation(res, f"stencil node set (NaN sample) {b} order={p}", {
+                        "N": N, "axis": ax, "nan_at": j, "row": i,
+                        "output_is_nan": bool(bad[i].any()), "weight_is_zero": bool(want[i, j] == 0)})
+                    break
+            else:
+                j = None
+            if j is not None:
+                continue
         # ---- exact on monomials up to degree p (open boundaries only)
         if b == 'no boundary':
             xs = [fd.xarray, fd.yarray, fd.zarray][ax][:N]
